@@ -81,6 +81,12 @@ def run(run):
                 if k == "LetStmt" and "i" in n:
                     for (i, _, _) in T.pat_bindings(n["p"]):
                         add(i, n["i"])
+                    # destructuring of self / other: `let Self { register_taint: x, .. } = other;` binds x to other.register_taint
+                    ini = T.peel(n["i"])
+                    if ini.get("k") in ("Var", "Upvar") and ini.get("n") in ("self", "other"):
+                        for (i, _nm, pth) in T.pat_bindings(n["p"]):
+                            if pth:
+                                dep.setdefault(i, (set(), set()))[0].add((ini["n"], pth[0]))
                 elif k in ("Assign", "AssignOp"):
                     r = T.root_var_id(n["l"])
                     if r is not None:
@@ -578,6 +584,13 @@ def run(run):
         tw = S.Sym(F).term(fs["body"])
         for fld in st["variants"][0]["fields"]:
             ok = any(is_call(x, ("merge_with", "merge")) and fmt(x[2][0]) == "self.%s" % fld["name"] and fmt(x[2][1]) == "other.%s" % fld["name"] for x in S.subterms(tw))
+            if not ok:
+                # through a private helper that is handed `other`: self.merge_<field>_with(other)
+                for hc in [x for x in T.walk(fs["body"]) if x.get("k") == "Call" and (F.by_path.get(x.get("r") or "") or F.by_path.get(x.get("f") or "")) is not None]:
+                    hfn = F.by_path.get(hc.get("r") or "") or F.by_path.get(hc.get("f") or "")
+                    th = S.Sym(F).term(hfn["body"])
+                    if any(is_call(x, ("merge_with", "merge")) and fmt(x[2][0]) == "self.%s" % fld["name"] and fmt(x[2][1]).endswith(".%s" % fld["name"]) and not fmt(x[2][1]).startswith("self.") for x in S.subterms(th)):
+                        ok = True
             run.check("R4", "taint::State::merge_with|%s" % fld["name"], ok, "field `%s` of the taint state must be merged with other.%s" % (fld["name"], fld["name"]), F.loc(fs["body"]))
 
     run.guarded("R4", r4)
